@@ -158,10 +158,29 @@ def run(ctx):
         cls = type(a)
         name = f"{cls.__module__}:{cls.__qualname__}"
         n_inst += 1
-        before = from_py(a)
 
         def bad(what):
             prop_bad.append({"class": name, "what": what, "instance": repr(a)[:300]})
+        # "holds only immutable field values": every leaf is one of the immutable value types of the library
+        import datetime as _dt
+        import uuid as _uuid
+
+        def foreign_leaves(o, path="", out=None):
+            out = [] if out is None else out
+            if dataclasses.is_dataclass(o) and not isinstance(o, type):
+                for f in dataclasses.fields(o):
+                    foreign_leaves(getattr(o, f.name), f"{path}.{f.name}", out)
+            elif isinstance(o, tuple):
+                for j, x in enumerate(o):
+                    foreign_leaves(x, f"{path}[{j}]", out)
+            elif not (o is None or isinstance(o, (bool, int, float, str, bytes, _uuid.UUID, _dt.datetime, _dt.timedelta))):
+                out.append(f"{path.lstrip('.')}: {type(o).__module__}.{type(o).__qualname__}")
+            return out
+        foreign = foreign_leaves(a)
+        if foreign:
+            bad(f"holds field values that are not immutable library values: {foreign[:3]}")
+            continue
+        before = from_py(a)
         # immutability
         for f in dataclasses.fields(a):
             ops["setattr"] += 1
@@ -229,8 +248,10 @@ def run(ctx):
                 pass        # unhashable: reported above
         # copies
         for opname, fn in (("copy", copy.copy), ("deepcopy", copy.deepcopy), ("replace", dataclasses.replace),
-                           ("pickle", lambda x: pickle.loads(pickle.dumps(x)))):
-            ops[opname] += 1
+                           ("pickle", lambda x: pickle.loads(pickle.dumps(x))),
+                           *((f"pickle-protocol-{pr}", lambda x, pr=pr: pickle.loads(pickle.dumps(x, protocol=pr)))
+                             for pr in range(0, pickle.HIGHEST_PROTOCOL + 1))):
+            ops[opname.split("-")[0]] += 1
             try:
                 c = fn(a)
             except Exception as e:  # noqa
@@ -242,6 +263,10 @@ def run(ctx):
                 same = c == a and type(c) is type(a)     # unhashable: reported above
             if not same:
                 bad(f"{opname} produced an unequal instance")
+            elif from_py(c) != before and opname not in ("pickle-protocol-0", "pickle-protocol-1", "pickle-protocol-2", "pickle-protocol-3"):
+                # (CPython's datetime pickles carry `fold` only from protocol 4 on: below that a fold=1 timestamp comes
+                #  back equal by == yet denoting the other instant - the interpreter's behaviour, not the entity's)
+                bad(f"{opname} produced an instance whose field values differ from the original's")
         if from_py(a) != before:
             bad("the original instance changed")
     # model comparison of equality
